@@ -16,6 +16,8 @@ RULES = {
     "type_add_str": (("DataTypeError",), ("mutate", "filter", "arrange", "summarize", "join_on")),
     "type_sum_str": (("DataTypeError",), ("mutate", "summarize")),
     "type_bad_cast": (("DataTypeError",), ("mutate", "filter", "summarize")),
+    # an ill-typed expression as the ROOT of a context argument (arrange= / partition_by= / filter=)
+    "type_in_ctx": (("DataTypeError",), ("mutate",)),
     # non-boolean predicate
     "pred_nonbool": (("DataTypeError",), ("filter", "join_on")),
     # function type rules
@@ -61,6 +63,9 @@ RULES = {
 }
 
 NESTS = ("top", "arith", "case_branch", "case_cond", "ctx_kwarg")
+# where the inner function of a nested aggregate / window sits, or which context argument
+# carries the ill-typed expression
+POSITIONS = ("arith", "case_cond", "case_branch", "ctx_filter", "ctx_arrange", "ctx_partition")
 
 
 def gen_reject(g):
@@ -125,6 +130,12 @@ def gen_reject(g):
         st["str"] = rng.choice(strs) if strs else None
         st["any"] = rng.choice([n for n, _ in vis])
         st["new"] = g.fresh_name()
+        if rule in ("nested_agg", "nested_window"):
+            st["pos"] = rng.choice(("top",) + POSITIONS)
+        if rule == "type_in_ctx":
+            st["pos"] = rng.choice(POSITIONS[3:])
+            st["k"] = rng.choice(["add_str", "bad_cast", "nonbool_when"])
+            st["deep"] = rng.random() < 0.4
         if rule in ("foreign_ref", "foreign_ref_on", "reselect_hidden", "rename_hidden_ref"):
             if rule in ("reselect_hidden", "rename_hidden_ref"):
                 hid = set(pt.m.hidden())
@@ -182,7 +193,7 @@ class RejectsMixin:
         pre = self.reject_precondition(step, pt, other)
         if pre is not None:
             raise Skip(pre)
-        step["ctx"] = f"{verb}/{step['nest']}"
+        step["ctx"] = f"{verb}/{step.get('pos') or step['nest']}"
 
         def model_fn(new_id):
             raise Expect(classes, rule)
@@ -216,7 +227,7 @@ class RejectsMixin:
         T = self.model.toks
         needs_int = rule in (
             "type_add_str", "type_bad_cast", "pred_nonbool", "window_in_filter", "agg_in_filter", "window_in_summarize",
-            "window_in_on", "nested_agg", "nested_window", "summarize_plain_col", "marker_in_mutate", "marker_nested", "full_join_ineq",
+            "window_in_on", "nested_agg", "nested_window", "summarize_plain_col", "marker_in_mutate", "marker_nested", "full_join_ineq", "type_in_ctx",
         )  # fmt: skip
         if (needs_int or rule in ("foreign_ref", "unknown_C")) and step.get("int") is None:
             return "no int column"
@@ -378,10 +389,40 @@ class RejectsMixin:
         if rule == "window_in_on":
             bad = c_int.shift(1, arrange=own_int)
             return t >> pdt.join(o, nested(bad) == o[o_name()], "inner")
-        if rule == "nested_agg":
-            return place(c_int.sum().max() if step["nest"] == "top" else (c_int.sum() + 1).max())
-        if rule == "nested_window":
-            return place(c_int.shift(1, arrange=own_int).shift(1, arrange=own_int) if step["nest"] == "top" else (c_int.shift(1, arrange=own_int) + 1).cum_sum(arrange=own_int))
+        if rule in ("nested_agg", "nested_window"):
+            pos = step.get("pos") or ("top" if step["nest"] == "top" else "arith")
+            if rule == "nested_agg":
+                inner = lambda: c_int.max()  # noqa: E731
+                outer = lambda e: e.sum()  # noqa: E731
+            else:
+                inner = lambda: c_int.shift(1, arrange=own_int)  # noqa: E731
+                outer = lambda e: e.cum_sum(arrange=own_int)  # noqa: E731
+            if pos == "top":
+                return place(outer(inner()))
+            if pos == "arith":
+                return place(outer(inner() + 1))
+            if pos == "case_cond":
+                return place(outer(pdt.when(inner() > 0).then(own_int).otherwise(0)))
+            if pos == "case_branch":
+                return place(outer(pdt.when(own_int >= 0).then(inner()).otherwise(0)))
+            if pos == "ctx_filter":
+                return place(own_int.sum(filter=inner() > 0))
+            if pos == "ctx_arrange":
+                return place(own_int.shift(1, arrange=inner()))
+            if pos == "ctx_partition":
+                return place(own_int.sum(partition_by=inner()))
+            raise AssertionError(pos)
+        if rule == "type_in_ctx":
+            k = step["k"]
+            bad = c_int + "a" if k == "add_str" else c_int.cast(pdt.Date()) if k == "bad_cast" else pdt.when(c_int).then(1).otherwise(2)
+            if step.get("deep") and k != "bad_cast":
+                bad = -bad
+            pos = step["pos"]
+            if pos == "ctx_filter":
+                return place(own_int.sum(filter=bad > 0))
+            if pos == "ctx_arrange":
+                return place(own_int.shift(1, arrange=bad))
+            return place(own_int.sum(partition_by=bad))
         if rule == "summarize_plain_col":
             return t >> pdt.summarize(**{new: nested(c_int)})
         if rule == "summarize_agg_partition_by":
